@@ -247,3 +247,30 @@ def pmap(func, cases, jobs=None, cpu_budget=30.0, wall_budget=None, env=None, ke
 
 def run_one(func, case, **kw):
     return pmap(func, [case], jobs=1, **kw)[0]
+
+
+def run_extra(run, func, cases, cpu_budget=60, kind_prefix="", **kw):
+    """Run an additional workload whose case function returns
+       {"bad": [witness dicts with "what"], "counts": {...}, "key": ..., "nontrivial": bool, "sample": ...}
+    and merge it into `run` (standard handling of crashes / hangs / harness exceptions)."""
+    res = pmap(func, cases, cpu_budget=cpu_budget, **kw)
+    for c, r_ in zip(cases, res):
+        if r_["status"] != "ok":
+            if r_["status"] in ("crash", "hang"):
+                run.violation(kind_prefix + "engine " + r_["status"], {"workload": func, "case": c, "result": {k: r_[k] for k in r_ if k != "i"}},
+                              mech={"what": r_["status"], "workload": func})
+            elif r_["status"] == "exception":
+                run.violation(kind_prefix + "harness exception", {"workload": func, "case": c, "error": r_.get("error"), "tb": r_.get("tb")},
+                              mech={"what": "exception", "workload": func})
+            else:
+                run.inconclusive_because("%s case %s: %s" % (func, c, r_["status"]))
+            continue
+        v = r_["value"]
+        if v.get("key") is not None:
+            run.case(v["key"], nontrivial=v.get("nontrivial", True), sample=v.get("sample"))
+        for k, n_ in v.get("counts", {}).items():
+            run.count(k, n_)
+        for b in v.get("bad", []):
+            b.setdefault("case", c)
+            run.violation((kind_prefix + b["what"])[:90], b, mech={"what": b["what"]})
+    return res
